@@ -25,11 +25,11 @@ ASSUMPTIONS = [
 
 def step_shards(tier):
     out = []
-    recvs = ["full", "short_h", "reset_h", "short_d", "reset_d"]
+    recvs = ["full", "short_h", "reset_h", "short_d", "short_d1", "reset_d"]
     for c in CTRLS:
         for ss in (0, 1, 2, 3):
             for rv in recvs:
-                if tier == "quick" and rv in ("reset_h", "short_d") and c not in ("SUBSCRIBE", "data", "CONNECT_V2"):
+                if tier == "quick" and rv in ("reset_h", "short_d", "short_d1") and c not in ("SUBSCRIBE", "data", "CONNECT_V2"):
                     continue
                 base = {"ctrl": c, "sstate": ss, "recv": rv, "others": ["L", "A"], "names": [1, 1, 1, 2]}
                 out.append(base)
